@@ -433,7 +433,13 @@ func (p c09) checkIndexStep(m *declModel, t reference.Target, is lang.IndexStep,
 		// collections carry a definition range equal to a block header
 		for _, b := range m.blocks {
 			if b.DefRange() == *t.DefRangePtr {
-				viol("NESTED element-range-not-the-blocks-extent", fmt.Sprintf("nested target %s has the header of block %s %v as definition range but %s as range, the block's extent is %s", t.Addr, b.Type, b.Labels, fmtRange(*t.RangePtr), fmtRange(b.Range())))
+				class := "element-range-not-the-blocks-extent"
+				// the narrow, known shape: the FIRST element starts at its own block and
+				// extends over the following sibling blocks of the same type
+				if t.RangePtr.Start == b.Range().Start && t.RangePtr.End.Byte > b.Range().End.Byte && isFirstOfType(m.parents[b.Range()], b) && endsAtSibling(m.parents[b.Range()], b, t.RangePtr.End) {
+					class = "first-element-range-extends-over-sibling-blocks"
+				}
+				viol("NESTED "+class, fmt.Sprintf("nested target %s has the header of block %s %v as definition range but %s as range, the block's extent is %s", t.Addr, b.Type, b.Labels, fmtRange(*t.RangePtr), fmtRange(b.Range())))
 				return
 			}
 		}
@@ -463,6 +469,30 @@ func (p c09) checkIndexStep(m *declModel, t reference.Target, is lang.IndexStep,
 			viol("NESTED map-key-not-written-key", fmt.Sprintf("nested target %s points at block %s %v", t.Addr, blk.Type, blk.Labels))
 		}
 	}
+}
+
+func isFirstOfType(body *hclsyntax.Body, b *hclsyntax.Block) bool {
+	if body == nil {
+		return false
+	}
+	for _, sib := range body.Blocks {
+		if sib.Type == b.Type {
+			return sib == b
+		}
+	}
+	return false
+}
+
+func endsAtSibling(body *hclsyntax.Body, b *hclsyntax.Block, end hcl.Pos) bool {
+	if body == nil {
+		return false
+	}
+	for _, sib := range body.Blocks {
+		if sib.Type == b.Type && sib != b && sib.Range().End == end {
+			return true
+		}
+	}
+	return false
 }
 
 func (p c09) Replay(w *runner.Witness, rep *runner.Reporter) error {
